@@ -77,7 +77,9 @@ def tail_case(draw):
             # per member: where its c*f^-4 range starts and how long it is (None: to the end of the grid); outside the
             # range E*f^4 is noise below c, so each member has its own flattest window
             "starts": [draw(st.integers(2, j0)) for _ in range(n)],
-            "lengths": [draw(st.one_of(st.none(), st.integers(nb, nb + 3))) for _ in range(n)]}
+            "lengths": [draw(st.one_of(st.none(), st.integers(nb, nb + 3))) for _ in range(n)],
+            # a missing observation inside a batch: one member is NaN in every bin (the others must be unaffected)
+            "all_nan_member": draw(st.integers(0, n - 1)) if n >= 2 and draw(st.integers(0, 3)) == 0 else None}
 
 
 def build_tail(c, scale=1.0):
@@ -102,6 +104,8 @@ def build_tail(c, scale=1.0):
         b1[i] = c["r1"][i] * np.sin(ang)
         if c["nan_pre_tail"] and start > 1:
             e[i, rng.integers(0, start)] = np.nan
+        if c.get("all_nan_member") == i:
+            e[i, :] = np.nan
     sc = {"kind": "1d", "f": c["f"], "layout": c["layout"], "shape": list(shape), "values": "tail",
           "moment_kind": "tail", "e": (e * scale).reshape(-1).tolist(), "a1": a1.reshape(-1).tolist(),
           "b1": b1.reshape(-1).tolist(), "a2": np.zeros(n * nf).tolist(), "b2": np.zeros(n * nf).tolist(),
@@ -121,13 +125,15 @@ def call(spec, c, method, convention=None, **over):
         charnock_constant=p["alpha"], viscous_constant=p["cvisc"])
 
 
-def check_dataset(ds, shape, ust_ref, z0_ref, u10_ref, dir_ref, what):
+def check_dataset(ds, shape, ust_ref, z0_ref, u10_ref, dir_ref, what, skip=None):
     us = np.asarray(ds["friction_velocity"].values, dtype=float)
     require(us.shape == shape, "output_shape", f"{what}: {us.shape} vs {shape}")
     u10 = np.asarray(ds["u10"].values, dtype=float).reshape(-1)
     di = np.asarray(ds["direction"].values, dtype=float).reshape(-1)
     us = us.reshape(-1)
     for i in range(len(us)):
+        if i == skip:
+            continue                     # the all-NaN member: no equilibrium level exists, nothing is asserted about it
         require(abs(us[i] - ust_ref[i]) <= 1e-9 * ust_ref[i], "friction_velocity_closed_form",
                 f"{what} [{i}]: got {us[i]!r} expected {ust_ref[i]!r}")
         require(abs(u10[i] - u10_ref[i]) <= 1e-9 * abs(u10_ref[i]), "u10_from_log_profile_with_charnock_roughness",
@@ -145,31 +151,34 @@ def run_tail(c):
     refs = [closed_form(ci, p["I"], p["beta"], p["kappa"], p["alpha"], p["cvisc"]) for ci in c["c"]]
     going = [t % 360.0 for t in c["theta"]]
     dir_ref = going if c["convention"].startswith("going") else [(270.0 - t) % 360.0 for t in going]
+    skip = c.get("all_nan_member")
     ds = call(spec, c, c["method"])
     check_dataset(ds, shape, [r[0] for r in refs], [r[1] for r in refs], [r[2] for r in refs], dir_ref,
-                  f"method={c['method']} nb={c['nb']} convention={c['convention']}")
+                  f"method={c['method']} nb={c['nb']} convention={c['convention']}", skip=skip)
     # both methods agree on a spectrum with an exact f^-4 range (batched inputs, no NaN)
     if not c["nan_pre_tail"] and c["layout"] != "none":
         other = "mean" if c["method"] == "peak" else "peak"
         ds2 = call(spec, c, other)
         check_dataset(ds2, shape, [r[0] for r in refs], [r[1] for r in refs], [r[2] for r in refs], dir_ref,
-                      f"method={other} (other method)")
+                      f"method={other} (other method)", skip=skip)
     # the two conventions are related by (270 - going_to) mod 360
     dg = np.asarray(call(spec, c, c["method"], "going_to_counter_clockwise_east")["direction"].values).reshape(-1)
     dc = np.asarray(call(spec, c, c["method"], "coming_from_clockwise_north")["direction"].values).reshape(-1)
-    require((np.abs(((dc - (270.0 - dg)) + 180.0) % 360.0 - 180.0) <= 1e-9).all(), "convention_is_270_minus_going_to",
+    keep = np.array([i != skip for i in range(len(dg))])
+    require((np.abs(((dc - (270.0 - dg)) + 180.0) % 360.0 - 180.0) <= 1e-9)[keep].all(), "convention_is_270_minus_going_to",
             f"{dg} -> {dc}")
     # scaling the spectrum scales the friction velocity linearly
     s = c["scale"]
     ds3 = call(build_tail(c, s), c, c["method"])
     us3 = np.asarray(ds3["friction_velocity"].values, dtype=float).reshape(-1)
-    require((np.abs(us3 - s * np.array([r[0] for r in refs])) <= 1e-9 * s * np.array([r[0] for r in refs])).all(),
+    require((np.abs(us3 - s * np.array([r[0] for r in refs])) <= 1e-9 * s * np.array([r[0] for r in refs]))[keep].all(),
             "friction_velocity_linear_in_spectrum", f"scale={s}")
     nontriv = any(abs((t % 90.0)) > 1e-6 for t in c["theta"])
     return {"nontrivial": nontriv, "classes": ["method_" + c["method"], "layout_" + c["layout"],
                                                 "convention_" + c["convention"].split("_")[0],
                                                 "default_params" if c["params"]["I"] == 2.5 else "custom_params"] +
             (["nan_bins"] if c["nan_pre_tail"] else []) +
+            (["batch_with_an_all_nan_member"] if skip is not None else []) +
             (["members_with_different_f4_ranges"] if len(set(zip(c.get("starts", [0]), map(str, c.get("lengths", [0]))))) > 1 else [])}
 
 
